@@ -582,7 +582,6 @@ class find_stackings_c:
         f"forall(lambda a: implies(0 <= a and a < {_N} and not is_none({_S}[a].base_normal_vector), "
         f"dot3(some({_S}[a].base_normal_vector), some({_S}[a].base_normal_vector)) > 0), pats=['ident({_S}[a])'])",
     ]
-    ghost_entry = ["use degrees_monotone()"]
     ensures = [
         # soundness: every reported stacking is a pair that may satisfy the definition, correctly oriented and labelled
         f"forall(lambda q: implies(0 <= q and q < len(result), exists(lambda a, b: 0 <= a and a < b and b < {_N} and {_EL('a')} and {_EL('b')} "
@@ -704,7 +703,11 @@ class find_stackings_c:
                 "not res_lt(pairs[SORTED_PI[w]][1], pairs[SORTED_PI[q]][1]))), pats=[['SORTED_PI[q]', 'SORTED_PI[w]']])"]},
         {"when": "after", "at": "pairs = []", "label": "ghost-init2", "do": ["let SRC2 = empty('list[int]')", "let POS2 = empty('list[int]')"]},
         {"when": "after", "at": "residue_j =", "label": "pair-of-step",
-         "do": [f"assert 0 <= i and i < j and j < len(coordinates) and residue_i == {_RM('i')} and residue_j == {_RM('j')}"]},
+         "do": [f"assert 0 <= i and i < j and j < len(coordinates) and residue_i == {_RM('i')} and residue_j == {_RM('j')}",
+                f"use degrees_monotone(vangle(some({_RM('i')}.base_normal_vector), some({_RM('j')}.base_normal_vector)), "
+                f"vangle(-some({_RM('i')}.base_normal_vector), some({_RM('j')}.base_normal_vector)))",
+                f"use degrees_monotone(vangle(cvec({_RM('i')}, {_RM('j')}), some({_RM('i')}.base_normal_vector)), "
+                f"vangle(cvec({_RM('i')}, {_RM('j')}), some({_RM('j')}.base_normal_vector)))"]},
         {"when": "before", "at": "continue", "loop": 2, "label": "a-skipped-pair-does-not-satisfy-the-definition",
          "do": [f"assert not stk({_RM('i')}, {_RM('j')}, 0 - EPS)", "let POS2 = snoc(POS2, 0 - 1)"]},
         {"when": "after", "at": "vector =", "label": "vector-nonzero", "do": ["use sumsq_pos(vector[0], vector[1], vector[2])"]},
@@ -717,8 +720,10 @@ class find_stackings_c:
 
 LEMMAS.update({
     # --- assumed properties of library functions (trusted base) ---
-    "degrees_monotone": {"kind": "assumed-external", "params": [],
-                         "ensures": ["forall(lambda x, y: implies(x <= y, degrees(x) <= degrees(y)), sorts={'x': 'real', 'y': 'real'}, pats=[['degrees(x)', 'degrees(y)']])"]},
+    # math.degrees is monotone; instantiated only for the two pairs of angles that the definition compares (a quantified
+    # version with trigger {degrees(x), degrees(y)} is instantiated quadratically)
+    "degrees_monotone": {"kind": "assumed-external", "params": ["x", "y"],
+                         "ensures": ["implies(x <= y, degrees(x) <= degrees(y))", "implies(y <= x, degrees(y) <= degrees(x))"]},
     "sum_empty": {"kind": "assumed-external", "params": ["l"], "requires": ["len(l) == 0"], "ensures": ["sum(l) == 0"]},
     "sum_append": {"kind": "assumed-external", "params": ["old_", "new_", "v"],
                    "requires": ["len(new_) == len(old_) + 1", "forall(lambda q: implies(0 <= q and q < len(old_), new_[q] == old_[q]))", "new_[len(old_)] == v"],
